@@ -316,6 +316,8 @@ def zint(v):
         return v
     if isinstance(v, Ratio):
         return v.real()
+    if hasattr(v, 'as_int'):
+        return v.as_int()
     raise Unsupported(f'arithmetic on {v!r}')
 
 
